@@ -42,7 +42,10 @@ def _match_where(where, detail):
         return False
     for key, want in where.items():
         have = detail.get(key)
-        if isinstance(want, dict):
+        if isinstance(want, dict) and 'contains' in want:
+            if want['contains'] not in str(have):
+                return False
+        elif isinstance(want, dict):
             try:
                 v = float(have)
             except (TypeError, ValueError):
